@@ -587,32 +587,39 @@ Proof.
   intros H. apply andb_true_iff in H. tauto.
 Qed.
 
-Lemma rules_of_TUint x : rules_of TUint x = leaf_rules x.
+(* (stated as equations and used by rewriting: leaving the identification of [valid TUint x] with
+   the rule list to the unifier makes it unfold the 40 levels of fuel) *)
+Lemma valid_TUint x : valid TUint x = forallb (fun r : rule => snd r) (leaf_rules x).
 Proof. reflexivity. Qed.
-Lemma rules_of_TGeneric x : rules_of TGeneric x = leaf_rules x.
+Lemma valid_TGeneric x : valid TGeneric x = forallb (fun r : rule => snd r) (leaf_rules x).
 Proof. reflexivity. Qed.
+
+Lemma leaf_rules_uint x :
+  forallb (fun r : rule => snd r) (leaf_rules x) = true ->
+  forall v m, uint_leaf x = Some (v, m) -> be_value v < be_value m.
+Proof. intros H v m E. exact (leaves_ok_here 39 x (leaf_rules_41 x H) v m E). Qed.
 
 Theorem uint_valid_spec : forall x,
   valid TUint x = true ->
   forall v m, uint_leaf x = Some (v, m) -> be_value v < be_value m.
-Proof.
-  intros x H v m E. unfold valid in H. rewrite rules_of_TUint in H.
-  pose proof (leaf_rules_41 x H) as L.
-  exact (leaves_ok_here 39 x L v m E).
-Qed.
+Proof. intros x H. rewrite valid_TUint in H. exact (leaf_rules_uint x H). Qed.
 
 (* the same for types the model knows only generically: a Uint anywhere directly below the top *)
+Lemma leaf_rules_uint_sub x :
+  forallb (fun r : rule => snd r) (leaf_rules x) = true ->
+  forall ps k y v m, x = Map ps -> In (k, y) ps -> uint_leaf y = Some (v, m) -> be_value v < be_value m.
+Proof.
+  intros H ps k y v m -> Hin E.
+  destruct (leaves_ok_sub 39 (Map ps) (leaf_rules_41 _ H)) as [_ [Hm _]].
+  exact (leaves_ok_here 38 y (Hm ps eq_refl k y Hin) v m E).
+Qed.
+
 Theorem generic_uint_leaves_spec : forall x,
   valid TGeneric x = true ->
   (forall v m, uint_leaf x = Some (v, m) -> be_value v < be_value m) /\
   (forall ps k y v m, x = Map ps -> In (k, y) ps -> uint_leaf y = Some (v, m) -> be_value v < be_value m).
 Proof.
-  intros x H. unfold valid in H. rewrite rules_of_TGeneric in H.
-  pose proof (leaf_rules_41 x H) as L. clear H.
-  split; [exact (leaves_ok_here 39 x L)|].
-  intros ps k y v m -> Hin E.
-  destruct (leaves_ok_sub 39 (Map ps) L) as [_ [Hm _]].
-  exact (leaves_ok_here 38 y (Hm ps eq_refl k y Hin) v m E).
+  intros x H. rewrite valid_TGeneric in H. split; [exact (leaf_rules_uint x H)|exact (leaf_rules_uint_sub x H)].
 Qed.
 
 (* ------------------------------------------------------------------ *)
